@@ -19,7 +19,7 @@ RULE = ("Hypothesis draws a data-first model - an LP (feasible / infeasible / op
         "declared bound must hold at the returned values within tau = 1e-5*max(1, sum|terms|).  A method that "
         "refuses the model by raising gives no Solution (discard).  Non-trivial = the model is infeasible by "
         "construction or has a constraint/bound that is active at the optimum."
-        '  Also: one third of the cases re-solve the same problem, tighten a bound between two solves (judged against the current bounds), or carry a constraint between parameters only (need <= cap) that is true or false.  Injection stage (one third of the cases): the minimize seam answers the first call with a drawn point, a drawn success flag and a drawn message ("Optimization terminated successfully", "Positive directional derivative for linesearch", "Iteration limit reached", "Inequality constraints incompatible"); later calls (the SLSQP -> trust-constr retry) run the real SciPy; OPTIMAL is still only allowed at a feasible point.')
+        '  Also: one third of the cases re-solve the same problem, tighten a bound between two solves (judged against the current bounds), add a list of constraints that cuts off the returned point and solve again, or carry a constraint between parameters only (need <= cap) that is true or false.  Injection stage (one third of the cases): the minimize seam answers the first call with a drawn point, a drawn success flag and a drawn message ("Optimization terminated successfully", "Positive directional derivative for linesearch", "Iteration limit reached", "Inequality constraints incompatible"); later calls (the SLSQP -> trust-constr retry) run the real SciPy; OPTIMAL is still only allowed at a feasible point.')
 BUDGET = {"quick": {"workers": 16, "examples": 50}, "thorough": {"workers": 16, "examples": 1500}}
 ASSUMPTIONS = ["only status OPTIMAL is constrained by this property"]
 MANIFEST = {
@@ -71,6 +71,15 @@ def check(case):
                 vobj.lb = xi + 1.0
                 model["data"]["bounds"][i] = [xi + 1.0, ub]
                 classes.append("edit:tighten-lb")
+            elif case["edit"] == "cut-list":
+                # a LIST of constraints added after the solve; the first one cuts off the point just returned
+                cut = vobj <= xi - 1.0
+                extra = b.var_objects()[names[0]] >= -1e6
+                P.subject_to([cut, extra])
+                row = [1.0 if j == i else 0.0 for j in range(len(names))]
+                model["constraints"].append({"kind": "scalar", "rows": [[row, "<=", xi - 1.0]]})
+                built.append([cut, extra])
+                classes.append("edit:cut-list")
             try:
                 sol = P.solve(method=method)
             except Exception as ex:
